@@ -3099,9 +3099,12 @@ class Entity(MutableMapping[str, str]):
         The since classnames cannot be removed, it will be reset to ``info_null``.
         """
         # Delete these so the .by_class/name values are cleared.
-        self['classname'] = 'info_null'
+        classname = 'worldspawn' if self is self.map.spawn else 'info_null'
+        self['classname'] = classname
         del self['targetname']
         self._keys.clear()
+        # The classname stays, by_class lists us under it.
+        self._keys['classname'] = classname
         # Clear $fixup as well.
         self._fixup = None
     clear_keys = clear
